@@ -92,6 +92,10 @@ def bshape(I, sa, sb, what):
 def arr_binop(I, op, a, b, node=None):
     what = ast.unparse(node) if node is not None else op.__name__
     if op is ast.MatMult: return matmul(I, a, b, what)
+    h = I.ext.get('mat_binop')
+    if h is not None:
+        r = h(I, op, a, b, what)
+        if r is not None: return r
     if isinstance(a, ArrRef) and isinstance(b, (list, tuple)): b = from_list(I, b)
     if isinstance(b, ArrRef) and isinstance(a, (list, tuple)): a = from_list(I, a)
     A = I.A(a) if isinstance(a, ArrRef) else None
@@ -450,6 +454,10 @@ def arr_setitem(I, b, ix, v, node=None):
 def a_shape(I, a): return tuple(conc(d) for d in I.A(a).shape)
 def a_T(I, a):
     A = I.A(a)
+    h = I.ext.get('mat_T')
+    if h is not None:
+        r = h(I, a)
+        if r is not None: return r
     if A.ndim == 1: return a
     if A.ndim != 2: raise Unsupported(".T of nd")
     return I.new_arr(ArrVal((A.shape[1], A.shape[0]), lambda i, j: A.elem(j, i), A.sort, ('T', a), False, (1 - A.vecs[0], A.vecs[1]) if A.vecs is not None else None))
@@ -535,7 +543,7 @@ def np_ones_like(I, a, dtype=None, **kw):
     A = I.A(a); return np_full(I, A.shape, coerce(1, A.sort if dtype is None else dtype_sort(dtype)))
 def np_copy(I, a, **kw):
     if isinstance(a, (list, tuple)): a = from_list(I, a)
-    A = I.A(a); return I.new_arr(ArrVal(A.shape, A.elem, A.sort, ('copy', a), False, A.vecs))
+    A = I.A(a); return I.new_arr(ArrVal(A.shape, A.elem, A.sort, A.tag if (A.tag and A.tag[0] == 'mat') else ('copy', a), False, A.vecs))
 def np_array(I, a, dtype=None, **kw):
     if isinstance(a, (list, tuple)): a = from_list(I, a)
     if not isinstance(a, ArrRef):
@@ -715,18 +723,35 @@ def np_reshape(I, a, shape):
     used('np.reshape')
     A = I.A(a)
     shape = as_shape(shape)
+    isneg1 = lambda v: (not is_sym(conc(v))) and conc(v) == -1
+    if A.ndim == 2 and len(shape) == 2 and not isneg1(shape[0]) and not isneg1(shape[1]):
+        # same-size 2-D -> 2-D: supported when it is the identity (dimension-wise equal), as an obligation when not syntactically so
+        for x, y in zip(shape, A.shape):
+            sd = same_dim(x, y)
+            if sd is False: raise Unsupported("reshape 2-D -> different 2-D")
+            if sd is None: I.ob("shape:reshape keeps the dimensions", tz(x) == tz(y), kind='shape')
+        return a
     if A.ndim == 1 and len(shape) == 2:
         n, m = shape
-        if conc(n) == -1: raise Unsupported("reshape -1")
-        if conc(m) == -1:
-            if conc(n) == 1: m = A.shape[0]
+        if isneg1(n): raise Unsupported("reshape -1")
+        if isneg1(m):
+            if (not is_sym(conc(n))) and conc(n) == 1: m = A.shape[0]
+            elif same_dim(n, A.shape[0]) is True: m = 1
             else: raise Unsupported("reshape -1")
         I.ob("shape:reshape size", tz(A.shape[0]) == tz(n) * tz(m), kind='shape')
         return I.new_arr(ArrVal((conc(n), conc(m)), lambda i, j: A.elem(tz(i) * tz(m) + tz(j)), A.sort))
-    if A.ndim == 2 and len(shape) == 1 and conc(shape[0]) == -1: return np_ravel(I, a)
+    if A.ndim == 2 and len(shape) == 1 and isneg1(shape[0]): return np_ravel(I, a)
+    if A.ndim == 2 and len(shape) == 1:
+        # (n,1) or (1,n) -> (n,)
+        I.ob("shape:reshape size", tz(A.shape[0]) * tz(A.shape[1]) == tz(shape[0]), kind='shape')
+        c1 = conc(A.shape[1])
+        if not is_sym(c1) and c1 == 1: return I.new_arr(ArrVal((conc(shape[0]),), lambda i: A.elem(i, 0), A.sort))
+        r1 = conc(A.shape[0])
+        if not is_sym(r1) and r1 == 1: return I.new_arr(ArrVal((conc(shape[0]),), lambda i: A.elem(0, i), A.sort))
+        raise Unsupported("reshape 2-D -> 1-D of a general matrix")
     if A.ndim == 1 and len(shape) == 1: return a
-    if A.ndim == 2 and len(shape) == 2 and (z3.eq(tz(shape[0]), tz(A.shape[0])) and conc(shape[1]) == -1): return a
-    if A.ndim == 2 and len(shape) == 2 and (conc(shape[0]) == -1 and conc(shape[1]) == 1 and conc(A.shape[1]) == 1): return a
+    if A.ndim == 2 and len(shape) == 2 and (z3.eq(tz(shape[0]), tz(A.shape[0])) and isneg1(shape[1])): return a
+    if A.ndim == 2 and len(shape) == 2 and (isneg1(shape[0]) and (not is_sym(conc(shape[1]))) and conc(shape[1]) == 1 and (not is_sym(conc(A.shape[1]))) and conc(A.shape[1]) == 1): return a
     if A.ndim == 1 and len(shape) == 3:
         p, n, m = shape
         I.ob("shape:reshape size", tz(A.shape[0]) == tz(p) * tz(n) * tz(m), kind='shape')
@@ -797,6 +822,17 @@ def np_diag(I, a, k=0):
     if A.ndim == 1:
         return I.new_arr(ArrVal((A.shape[0], A.shape[0]), lambda i, j: If(tz(i) == tz(j), A.elem(i), coerce(0, A.sort)), A.sort, ('diagm', a)))
     raise Unsupported("np.diag nd")
+def np_mean(I, a, axis=None, **kw):
+    hook = I.ext.get('mean_hook')
+    if hook:
+        r = hook(I, a, axis, kw)
+        if r is not None: return r
+    used('np.mean (opaque: result unconstrained)')
+    A = I.A(a)
+    if axis is None: return I.fresh('mean', RealS)
+    ax = axis if axis >= 0 else A.ndim + axis
+    shp = tuple(d for k_, d in enumerate(A.shape) if k_ != ax)
+    return I.fresh_arr('mean', shp)
 def np_transpose(I, a, axes=None):
     A = I.A(a)
     if axes is None: return a_T(I, a)
@@ -967,7 +1003,7 @@ def make_ext():
                minimum=np_minimum_maximum('minimum'), maximum=np_minimum_maximum('maximum'), concatenate=np_concatenate,
                argwhere=np_argwhere, flatnonzero=np_flatnonzero, where=np_where, reshape=lambda I, a, s, **k: np_reshape(I, a, s),
                sqrt=np_sqrt, abs=np_abs, absolute=np_abs, round=np_round, around=np_round, rint=np_round, isscalar=np_isscalar, isinf=np_isinf,
-               isfinite=np_isfinite, floor=np_floor, take=np_take, transpose=np_transpose, ravel=np_ravel, diag=np_diag,
+               isfinite=np_isfinite, floor=np_floor, mean=np_mean, take=np_take, transpose=np_transpose, ravel=np_ravel, diag=np_diag,
                ndarray=ExtClass('ndarray'), integer=ExtClass('Integral'), floating=ExtClass('float'),
                float64='float64', int64='int64', bool_='bool', linalg=ExtNS('np.linalg'), random=ExtNS('np.random'))
     np.float64 = 'float64'
